@@ -29,7 +29,11 @@ def main():
             if "Beartype" in name:
                 name = "TypeCheck"
             out.append({"exc": name, "msg": str(e)[:200]})
-    json.dump(out, open(cout, "w"))
+    def nonjson(o):
+        # an answer that is not a plain Python value (e.g. a NumPy scalar that leaked into counts): keep the case's
+        # answer comparable - and different from every expected answer - instead of losing the whole run
+        return {"NONJSON": type(o).__module__ + "." + type(o).__name__, "repr": repr(o)[:80]}
+    json.dump(out, open(cout, "w"), default=nonjson)
 
 
 if __name__ == "__main__":
